@@ -22,6 +22,60 @@ P = {
             "trusts spverif/ref/pus.py; decoder is always given the timestamp length used to build", "DESIGN.md 5/C03"),
 }
 
+P.update({
+    "C04": ("fault_enumeration", "fault injection with an acceptance monitor: every single-bit flip and every <=16-bit burst position of each sampled packet; trailer-is-CRC monitor after setter histories",
+            "For each sampled TC, TM and CFDP PDU (all 8 kinds, CRC flag set) every single-bit flip and every burst of length 2..16 at every bit offset outside the length-determining bits is applied and the decoder (class decoder and factory) must raise a documented error, never return an object; check_pus_crc must agree; every uncorrupted packet is accepted and its trailer equals the model CRC, also after random setter/pack/calc_crc histories.",
+            "CRC-16 detects all enumerated faults (verified on the model itself in the self-test); the CRC-flag bit of the CFDP header is treated as length-determining", "DESIGN.md 5/C04"),
+    "C05": ("exploration", "reference-model monitor (independent CFDP header codec), exhaustive over the 2048 flag x width configurations, all 2^16 lengths, all 2^16 (octet0, octet3) pairs for the decoder",
+            "Every PduHeader pack/unpack is compared field by field with an independent model over all 2^7 flag combinations x 16 width combinations, every data-field length, boundary and random id / sequence values; the decoder is fed every (octet 0, octet 3) pair and must return the model's values or raise exactly the predicted documented class; unequal id widths and lengths above 65535 are refused.",
+            "trusts spverif/ref/cfdp.py header/decode_header", "DESIGN.md 5/C05"),
+    "C06": ("exploration", "reference-model monitor (independent encoder and decoder for the 7 directives) + round-trip/relational checkers over all 128 header configurations per kind",
+            "Every packed directive PDU is compared octet-for-octet with an independent model, decoded (also from model-built octets), compared parameter by parameter and header field by header field, checked for == in both directions, packet_len and re-packing; all header configurations, all enum values, boundary sizes, TLV/LV lists; sizes that do not fit the selected width must make pack fail.",
+            "trusts spverif/ref/cfdp.py; valid parameter sets per 727.0-B-5", "DESIGN.md 5/C06"),
+    "C07": ("exploration", "reference-model monitor for File Data PDUs; exhaustive 64 metadata lengths x 4 states; behavioural check of the segment-length helper",
+            "As C06 for File Data: offset, segment metadata and file data must come back exactly (not one octet more or fewer), incl. empty data, the maximal 65535-octet data field, CRC x large x widths x segmentation control; metadata > 63 octets refused; get_max_file_seg_len... checked by packing a PDU of that size.",
+            "trusts spverif/ref/cfdp.py file_data/decode_pdu", "DESIGN.md 5/C07"),
+    "C08": ("exploration", "reference-model monitor for LV/TLV and the six concrete TLV layouts; exhaustive type x length and (class x foreign type x route) type-safety matrix",
+            "All 6 TLV types x all value lengths 0..255 and all LV lengths are packed/decoded against the model (consumed length = len+2 / len+1, over-long values refused); every filestore action x status code, names in multi-octet UTF-8, packet_len in octets; the complete 6 x 5 x 4 matrix of decoding a foreign TLV type through a concrete class must raise the type-mismatch error.",
+            "trusts spverif/ref/cfdp.py lv/tlv/fs_* helpers", "DESIGN.md 5/C08"),
+    "C09": ("exploration", "differential execution (suffix non-interference): decode(unit+suffix) vs decode(unit) for 20 unit kinds and 8 PDU kinds x 18 suffix classes; back-to-back splitting by reported lengths",
+            "For every self-delimiting unit the decode of unit+suffix must equal the decode of the unit alone in every field, reported length and re-packed octets, for suffixes incl. other valid units, TLV/LV/segment-request/file-data shaped octets and a suffix that makes the whole-buffer CRC valid; units packed back to back are split purely by reported lengths; complete PDUs + suffix either decode to exactly the constructor arguments or are refused with a documented error.",
+            "differential oracle; absolute correctness of decode(unit) is established by C01-C08, C14, C15, C17", "DESIGN.md 5/C09"),
+    "C10": ("fault_enumeration", "escape monitor on ~100 decoder entry points + prefix monitor (every truncation point) + octet substitution + length-field edits, each call under a sys.monitoring backward-jump budget",
+            "Every public decoder is called with random strings of every length 0..64, every strict prefix of valid units (which must be refused), single-octet substitutions at header/length/type offsets, edited length fields with cut/padded buffers, hand-shaped hostile structures and the units of all other kinds; the outcome must be a return value or a documented exception class, and the number of backward jumps inside spacepackets per call is bounded by 8*len+256.",
+            "'never loops' is decided as bounded progress on the generated inputs only", "DESIGN.md 5/C10"),
+    "C11": ("exploration", "history checker: after every setter step length / length-field / fresh-object / repeatable-pack checks on a deep copy; deep fingerprints + write-watch PduConfig for caller inputs",
+            "Random setter histories (1..8 steps) and exhaustive histories to depth 3/4 over small alphabets for every mutable packet class, from constructed and from decoded objects, CRC on/off, large on/off, all widths: after each step len(pack()) == reported length, the embedded length field is right, the octets equal a freshly constructed object with the same final values, packing twice is identical and keeps equality; caller PduConfig / parameter objects are fingerprinted before and after construction and pack (a write-watch subclass names the writing source line).",
+            "a fresh library object is the oracle for 'same final values'", "DESIGN.md 5/C11"),
+    "C12": ("exploration", "factory kind / equality checker over 8 kinds x 128 header configurations; raw inspectors vs reference header decode; full 8 x 8 holder accessor matrix",
+            "For every PDU kind and every header configuration the factory's generic decode must return exactly that class, equal to the original, re-packing identically; pdu_type / is_file_directive / pdu_directive_type must agree with the reference reading of the octets (directive octet at 4+2*idw+seqw); the holder's typed accessors succeed with the identical object on the diagonal and raise TypeError elsewhere.",
+            "packed octets come from the reference encoder", "DESIGN.md 5/C12"),
+    "C13": ("exploration", "history checker (conservation, exactly-once, order, idempotence) against a 12-line sequential parser model; exhaustive cut subsets x 4 append/parse schedules",
+            "Every subset of cut positions of a small two-packet stream under four append/parse schedules, every single (thorough: pair of) cut of a three-packet stream, random streams up to 2 kB with random cuts/schedules and streams with inter-packet garbage: after every parser call returned ++ queue must equal what was appended, the returned list must equal the model's, a second parse without new data must change nothing, and at the end every packet is returned exactly once in order.",
+            "schedules are orders of append/parse calls from one thread", "DESIGN.md 5/C13"),
+    "C14": ("exploration", "reference-model monitor with exact integer/datetime arithmetic; exhaustive over all 65536 days and every calendar day; monotonicity checker; addition vs integer arithmetic",
+            "All day counts x millisecond pool: octets, decode, as_datetime equal to 1958-01-01 + days + ms exactly, as_unix_seconds within 1 us, strict monotonicity also inside pre-1970 days; from_datetime on every calendar day at whole-millisecond and microsecond times; additions incl. exactly-to-midnight, multi-day and the overflow edge; all 256 first octets and short inputs.",
+            "trusts CPython datetime calendar arithmetic and spverif/ref/cds.py", "DESIGN.md 5/C14"),
+    "C15": ("exploration", "reference-model monitor for request ids (exhaustive per 16-bit half) + equality/hash law checker + service-1 report round-trip checker over the width grid",
+            "Request ids through four construction routes: packed form, 32-bit form and decoded form agree with the first four header octets, equality <=> same 32 bits, equal => same hash, dictionary use; service-1 reports for all 8 subservices x step-id / error-code widths {1,2,4,8} x failure data x timestamp lengths incl. version bits: exact source data, decode with matching widths, re-pack, whole-object equality, and all 32 parameter/subservice combinations accepted iff matching.",
+            "trusts spverif/ref/pus.py", "DESIGN.md 5/C15"),
+    "C16": ("exploration", "lock-step reference state machine: all histories to depth 3/4 over a 37-letter alphabet for 3 telecommands + random long histories; model-independent isolation/monotonicity invariants",
+            "After every add_tc / add_tm / remove_entry / remove_completed_entries call the return value and the entire verif_dict are compared with a reference model of the documented state machine, and model-independent invariants (isolation between telecommands, all_verifs_recvd never reverts, failed step never overwritten, completed flag <=> subservice in {2,4,6,7,8}, exact removal) are checked; the evidence reports abstract states and (state, input) transitions reached.",
+            "the reference model is my reading of the class documentation (DESIGN appendix A)", "DESIGN.md 5/C16"),
+    "C17": ("exploration", "reference-model monitor for USLP headers (all SCIDs, VCIDs, MAP ids, VCF lengths 0..7) and frames over the rule x protocol x size x zone grid; mismatch-class monitor",
+            "Primary and truncated headers are compared with an independent model for every SCID, VCID, MAP id, flag and every VCF-count length incl. odd ones; out-of-range ids refused; frames over 8 construction rules x protocol ids x TFDZ sizes x insert zone x OCF x FECF x fixed/variable/truncated: order of parts, len() and the frame-length field, decode with matching managed parameters, and the detectable parameter mismatches must raise USLP errors / ValueError.",
+            "trusts spverif/ref/uslp.py; only detectable mismatches are required to raise", "DESIGN.md 5/C17"),
+    "C18": ("exploration", "round-trip checker for the 9 reserved message kinds against written-out layouts; never-raises classification monitor, exhaustive over short contents of a 7-symbol alphabet",
+            "Every reserved message kind over id widths, enum values and names up to the 255-octet limit: packed TLV equals the model, decoding and recognising it returns exactly the original parameters through the matching getter and None through every other getter, classification flags as specified; is_reserved_cfdp_message / to_reserved_msg_tlv on arbitrary content (all strings up to length 6/7 over {c,f,d,p,00,80,ff}, random binary, near misses) must answer like the model and never raise.",
+            "getters on malformed content of their own type are informational", "DESIGN.md 5/C18"),
+    "C19": ("exploration", "lock-step counter model over call histories with restart injection at every inter-call point (new instance, and fresh interpreter process); file-content monitor with an audit hook",
+            "In-memory provider for every width 1..16 over more than two wraps; file provider for widths 1..8 with a new instance before every call, width 14 / PUS provider across the wrap with random restarts, a history in which every call runs in a fresh interpreter process; after every call value = model, in range, acceptable as packet sequence count, and the first line of the file holds the model's next value; bad file contents give ValueError, a missing file FileNotFoundError.",
+            "process stops are injected between calls only", "DESIGN.md 5/C19"),
+    "C20": ("exploration", "contracts vs int.to_bytes over all routes; exhaustive for widths 0,1,2; equality/hash law checker; conversion helpers vs two's complement",
+            "All (width, value) pairs for widths 0-2 and boundary/random values for 4 and 8 through seven construction/assignment routes: octets, int, len, hex and value views agree with int.to_bytes, from-bytes and generator routes give back an equal field, equality and hash depend on exactly (value, width); negative / too large values, unsupported widths and short octet strings give ValueError; to_unsigned / to_signed equal big-endian two's complement on every value they accept (exhaustive for 1 and 2 octets).",
+            "trusts CPython int.to_bytes", "DESIGN.md 5/C20"),
+})
+
 NOT_YET = {}
 
 
